@@ -79,7 +79,7 @@ def valspec():
 # ---------------------------------------------------------------------------
 # formula specs -> formula text against the current schema
 
-N_FORMS = 40
+N_FORMS = 42
 
 def _cols(doc, tref, data_only=False, formula_only=False):
   out = []
@@ -150,6 +150,21 @@ def formula_text(doc, tref, spec, self_col=None, max_ref=None):
     return 'DATE(1999, 12, 31)'
   if form == 38: return '10.0 / ($id %% %d)' % (2 + a % 2)          # raises for some rows
   if form == 39: return 'int(str(%s) or "x")' % ('$' + c1 if c1 else '$id')   # ValueError for non-numeric text
+  if form in (40, 41):
+    # dependencies between two formula columns across DIFFERENT rows with a possibly cyclic column graph:
+    # 40: a same-row reference to ANY other column (later ones included) for one row only, data for the rest;
+    # 41: a dereference of ANY column through a reference into the same table.
+    allc = [x for x in _cols(doc, tref) if x['colId'] != self_col and x['colId'] != 'group']
+    selfrefs = [x for x in allc if x['type'] == 'Ref:%s' % (me['tableId'] if me else '')]
+    dcols = [x for x in allc if not x['isFormula'] and x['type'].split(':')[0] in ('Int', 'Numeric', 'Text')]
+    if allc and form == 40:
+      x = allc[(a + c) % len(allc)]
+      alt = ('$%s' % dcols[b % len(dcols)]['colId']) if dcols else '$id * 10'
+      return '$%s if $id == %d else %s' % (x['colId'], 1 + a % 3, alt)
+    if allc and selfrefs and form == 41:
+      r = selfrefs[b % len(selfrefs)]
+      x = allc[(a + c) % len(allc)]
+      return '$%s.%s if $%s else 0' % (r['colId'], x['colId'], r['colId'])
   if form in (36, 37):
     # cross-row chain through ANY column of the same table (later columns included): the row direction keeps it
     # well-founded while the column graph may be cyclic, so evaluation order really matters (C06)
@@ -235,7 +250,7 @@ def formula_text(doc, tref, spec, self_col=None, max_ref=None):
 
 
 # reference chains and lookups are what real documents use most: weight them up
-FORM_WEIGHTS = {38: 3, 39: 2, 36: 3, 37: 2, 34: 4, 35: 2, 1: 2, 2: 2, 3: 2, 5: 6, 6: 4, 7: 4, 8: 4, 9: 3, 10: 2, 11: 2, 12: 2, 13: 2, 14: 2, 15: 2, 18: 3,
+FORM_WEIGHTS = {40: 3, 41: 3, 38: 3, 39: 2, 36: 3, 37: 2, 34: 4, 35: 2, 1: 2, 2: 2, 3: 2, 5: 6, 6: 4, 7: 4, 8: 4, 9: 3, 10: 2, 11: 2, 12: 2, 13: 2, 14: 2, 15: 2, 18: 3,
                 19: 2, 20: 2, 21: 2}
 _FORMS = []
 for _f in range(N_FORMS):
@@ -905,10 +920,27 @@ def prelude(focus=None):
       'rows2': st.lists(st.lists(valspec(), min_size=1, max_size=4), min_size=1, max_size=3),
       'formulas': st.lists(st.tuples(st.just(0), ref_forms).map(list), min_size=1, max_size=3),
     })
+  if focus == 'rowchains':
+    # Alpha references itself; F1 follows that reference into F0 and F0 is then re-pointed at ANY column for
+    # one row only: two formula columns that depend on each other across DIFFERENT rows (no cell-level cycle
+    # unless the data says so), so that the order of evaluation really matters.
+    small = st.integers(0, 5)
+    return st.fixed_dictionaries({
+      'types': st.lists(st.sampled_from([DATA_TYPES.index('Int'), DATA_TYPES.index('Numeric'), DATA_TYPES.index('Text')]),
+                        min_size=1, max_size=3),
+      'types2': st.lists(st.integers(0, len(DATA_TYPES) - 1), min_size=0, max_size=2),
+      'ref': st.just(4),
+      'rows': st.lists(st.lists(valspec(), min_size=1, max_size=4), min_size=2, max_size=4),
+      'rows2': st.lists(st.lists(valspec(), min_size=1, max_size=4), min_size=0, max_size=2),
+      'formulas': st.tuples(st.tuples(st.just(0), fspec()).map(list),
+                            st.tuples(st.just(0), st.tuples(st.just(41), small, small, small).map(list)).map(list)).map(list),
+      'chain': st.tuples(st.just(40), small, small, small).map(list),
+      'peers': st.lists(st.integers(0, 4), min_size=2, max_size=4),
+    })
   return st.fixed_dictionaries({
     'types': st.lists(st.integers(0, len(DATA_TYPES) - 1), min_size=2, max_size=4),
     'types2': st.lists(st.integers(0, len(DATA_TYPES) - 1), min_size=1, max_size=3),
-    'ref': st.sampled_from([0, 1, 1, 2, 3, 3]),
+    'ref': st.sampled_from([0, 1, 1, 2, 3, 3, 4]),
     'rows': st.lists(st.lists(valspec(), min_size=1, max_size=4), min_size=0, max_size=5),
     'rows2': st.lists(st.lists(valspec(), min_size=1, max_size=4), min_size=0, max_size=4),
     'formulas': st.lists(st.tuples(st.integers(0, 1), fspec()).map(list), min_size=0, max_size=4),
@@ -924,8 +956,10 @@ def run_prelude(doc, p):
            for i, t in enumerate(p['types2'][:4])]
   doc.apply([['AddTable', 'Alpha', cols1]])
   doc.apply([['AddTable', 'Beta', cols2]])
-  r = int(p['ref']) % 4
-  if r == 1:
+  r = int(p['ref']) % 5
+  if r == 4:
+    doc.apply([['AddColumn', 'Alpha', 'R', {'type': 'Ref:Alpha', 'isFormula': False}]])     # self-reference
+  elif r == 1:
     doc.apply([['AddColumn', 'Alpha', 'R', {'type': 'Ref:Beta', 'isFormula': False}]])
   elif r == 2:
     doc.apply([['AddColumn', 'Alpha', 'R', {'type': 'RefList:Beta', 'isFormula': False}]])
@@ -948,6 +982,22 @@ def run_prelude(doc, p):
       continue
     doc.apply([['AddColumn', tid, 'F%d' % i, {'type': 'Any', 'isFormula': True,
                                                'formula': formula_text(doc, tm[0]['id'], fs)}]])
+  if p.get('chain'):
+    tm = [t for t in doc.tables_meta() if t['tableId'] == 'Alpha']
+    if tm and any(c['colId'] == 'F0' for c in doc.columns(tm[0]['id'])):
+      ch = [int(x) for x in p['chain']]
+      if ch[1] % 3:
+        # the canonical shape: F0[k] -> F1[k] -> F0[R[k]]
+        dcols = _cols(doc, tm[0]['id'], data_only=True)
+        alt = '$%s' % dcols[ch[2] % len(dcols)]['colId'] if dcols else '$id'
+        doc.apply([['ModifyColumn', 'Alpha', 'F1', {'formula': '$R.F0 if $R else 0'}]])
+        doc.apply([['ModifyColumn', 'Alpha', 'F0', {'formula': '$F1 if $id == %d else %s' % (1 + ch[3] % 2, alt)}]])
+      else:
+        doc.apply([['ModifyColumn', 'Alpha', 'F0', {'formula': formula_text(doc, tm[0]['id'], p['chain'], self_col='F0')}]])
+      rows = doc.row_ids('Alpha')
+      if rows and p.get('peers'):
+        pool = [0] + rows
+        doc.apply([['BulkUpdateRecord', 'Alpha', rows, {'R': [pool[int(x) % len(pool)] for x in (list(p['peers']) * 4)[:len(rows)]]}]])
 
 
 def history(profile='general', min_bundles=1, max_bundles=12, max_ops=2, with_prelude=True, focus=None):
